@@ -53,6 +53,62 @@ func (s *Sim) opRegistry(op *Op) {
 			s.C.Checks["reg.capacity"]++
 			s.C.Faults["registry_full"]++
 		}
+	case "use":
+		// reg.capacity: with the registry full, the highest IDs are usable in entities,
+		// filters and queries (a new archetype is created while all IDs are assigned)
+		if s.registered() < max || s.locked() {
+			s.skip(op)
+			return
+		}
+		tmax := 0
+		for t := 1; t < NumTypes; t++ {
+			if s.ids[t].Index() > s.ids[tmax].Index() {
+				tmax = t
+			}
+		}
+		other := abs(op.N) % NumTypes
+		cs := []int{tmax}
+		if other != tmax && !U[other].IsRel {
+			cs = append(cs, other)
+		}
+		if U[tmax].IsRel {
+			cs = []int{tmax}
+		}
+		n := len(s.M.Ents)
+		sub := Op{K: KNewEntity, P: PUnsafe, Cs: cs, Ts: []int{-1}, RS: RSID, Vs: []uint64{uint64(op.N)*2 + 1, 77}}
+		p, val := s.call(func() { s.opNewEntity(&sub) })
+		if p || s.fatal || len(s.M.Ents) != n+1 {
+			s.violate("C18", "reg.capacity", "use/create", true, "with all %d component types registered, creating an entity with component ID %d failed: %v", max, s.ids[tmax].Index(), val)
+			return
+		}
+		e := s.M.Ents[n]
+		s.C.Checks["reg.capacity.use"]++
+		p, val = s.call(func() {
+			u := s.W.Unsafe()
+			for _, c := range cs {
+				if !u.Has(e.H, s.ids[c]) {
+					panic(fmt.Sprintf("Has(ID %d) is false", s.ids[c].Index()))
+				}
+				if got := U[c].Get(u.Get(e.H, s.ids[c])); got != e.Comps[c] {
+					panic(fmt.Sprintf("component ID %d reads %#x, written %#x", s.ids[c].Index(), got, e.Comps[c]))
+				}
+			}
+			f := NewUnsafeFilterAd(s.W, s.idFn(), []int{tmax})
+			q := f.Query(nil)
+			found := false
+			for q.Next() {
+				if q.Entity() == e.H {
+					found = true
+				}
+			}
+			if !found {
+				panic(fmt.Sprintf("a query for component ID %d does not find the entity", s.ids[tmax].Index()))
+			}
+		})
+		if p {
+			s.violate("C18", "reg.capacity", "use", true, "with all %d component types registered, an entity created with component IDs %v is not usable: %v", max, s.idsOf(cs), val)
+			return
+		}
 	case "overflow":
 		if s.registered() < max {
 			s.skip(op)
